@@ -1220,7 +1220,9 @@ impl<V: View> View for TimesPos<V> {
             (Val::ValI(min_val), Val::ValI(scale)) => {
                 // For positive scaling: min = x * scale, so x >= min / scale
                 // Use ceiling division for minimum bound
-                let required_min = (min_val + scale - 1) / scale; // ceiling division
+                // (`/` truncates towards zero, which is not the ceiling for negative bounds)
+                let required_min = min_val.div_euclid(scale)
+                    + if min_val.rem_euclid(scale) != 0 { 1 } else { 0 }; // ceiling division
                 self.x.try_set_min(Val::ValI(required_min), ctx)
             }
             (Val::ValF(min_val), Val::ValF(scale)) => {
@@ -1247,7 +1249,8 @@ impl<V: View> View for TimesPos<V> {
             (Val::ValI(max_val), Val::ValI(scale)) => {
                 // For positive scaling: max = x * scale, so x <= max / scale
                 // Use floor division for maximum bound
-                let required_max = max_val / scale; // floor division
+                // (`/` truncates towards zero, which is not the floor for negative bounds)
+                let required_max = max_val.div_euclid(scale); // floor division
                 self.x.try_set_max(Val::ValI(required_max), ctx)
             }
             (Val::ValF(max_val), Val::ValF(scale)) => {
